@@ -81,19 +81,22 @@ SAVE_SPEC = """    requires laws(), wf(*old(self), *old(fs)),
         same_handles(*final(self), *old(self)),
         sv(*final(self)).saved.schema == sv(*old(self)).saved.schema, sv(*final(self)).saved.key == sv(*old(self)).saved.key,
         sv(*final(self)).next == IMap::<Seq<char>, EntryV>::empty(),
-        // unchanged re-scan: manifest untouched, write and gc skipped
+        // unchanged re-scan: manifest untouched, no serializer / write / gc call at all (the history counters are part of *fs)
         save_skips(sv(*old(self))) ==> sv(*final(self)).saved == sv(*old(self)).saved && sv(*final(self)).current && *final(fs) == *old(fs),
         // otherwise the saved entries are exactly the entries of the build in progress ...
         !save_skips(sv(*old(self))) ==> sv(*final(self)).saved.files == sv(*old(self)).next,
-        // ... and either the manifest reached the disk (then unreferenced blobs may be gone, referenced ones never), or nothing on disk changed
-        !save_skips(sv(*old(self))) ==> {
-            ||| (sv(*final(self)).current && parse_opt(final(fs).manifest) == Some(sv(*final(self)).saved)
-                 && gc_post(VpFs { manifest: final(fs).manifest, ..*old(fs) }, *final(fs), sv(*final(self)).saved.files))
-            ||| (sv(*final(self)).current == sv(*old(self)).current && *final(fs) == *old(fs))
+        // ... and, unless the serializer or the write returned Err, exactly one manifest write happened, the manifest on disk parses to the
+        // saved manifest, the flag is set, and gc removed only unreferenced blobs
+        (!save_skips(sv(*old(self))) && final(fs).io_failures == old(fs).io_failures) ==> {
+            &&& sv(*final(self)).current && parse_opt(final(fs).manifest) == Some(sv(*final(self)).saved)
+            &&& final(fs).manifest_writes == old(fs).manifest_writes + 1
+            &&& gc_post(VpFs { manifest: final(fs).manifest, manifest_writes: final(fs).manifest_writes, ..*old(fs) }, *final(fs), sv(*final(self)).saved.files)
         },
+        // a failed serialization / write leaves flag and disk files as they were
+        (!save_skips(sv(*old(self))) && final(fs).io_failures != old(fs).io_failures) ==> sv(*final(self)).current == sv(*old(self)).current && fs_same_files(*final(fs), *old(fs)),
         // the representation invariant survives, except in the class reported as finding F-C29-save-failed-write:
         // the write (or the serialization) failed while on_disk_current was true
-        wf(*final(self), *final(fs)) || (!save_skips(sv(*old(self))) && sv(*old(self)).current && *final(fs) == *old(fs)),
+        wf(*final(self), *final(fs)) || (!save_skips(sv(*old(self))) && sv(*old(self)).current && final(fs).io_failures != old(fs).io_failures),
 """
 
 
@@ -160,7 +163,7 @@ def build(ctx, res):
     f.replace("root.to_path_buf()", "vp_to_path_buf(root)", rule="O14")
     f.spec("""    requires laws(),
     ensures
-        fs_same_files(*final(fs), *old(fs)), final(fs).last_blob_read == old(fs).last_blob_read,
+        fs_same_files(*final(fs), *old(fs)), final(fs).last_blob_read == old(fs).last_blob_read, hist_same(*final(fs), *old(fs)),
         blocking ==> r is Some,
         r is Some ==> open_post(*old(fs), *final(fs), r.unwrap(), global_key@),""")
     f.at_start("    proof { lemma_fv_empty(); }")
@@ -215,7 +218,7 @@ def build(ctx, res):
     f.spec("""    requires blobs_addressed(*old(fs)), payload@.len() + 8 <= usize::MAX,
     ensures
         blobs_addressed(*final(fs)), final(fs).manifest == old(fs).manifest,
-        final(fs).last_manifest_read == old(fs).last_manifest_read, final(fs).last_blob_read == old(fs).last_blob_read,
+        final(fs).last_manifest_read == old(fs).last_manifest_read, final(fs).last_blob_read == old(fs).last_blob_read, hist_same(*final(fs), *old(fs)),
         r is None ==> final(fs).blobs == old(fs).blobs,
         r is Some ==> {
             &&& final(fs).blobs.contains_key(r.unwrap()@)
@@ -243,7 +246,7 @@ def build(ctx, res):
 
     # ---- put / set_diagnostics ---------------------------------------------------------------------------------
     BLOB_POST = """        blobs_addressed(*final(fs)), final(fs).manifest == old(fs).manifest,
-        final(fs).last_manifest_read == old(fs).last_manifest_read, final(fs).last_blob_read == old(fs).last_blob_read,
+        final(fs).last_manifest_read == old(fs).last_manifest_read, final(fs).last_blob_read == old(fs).last_blob_read, hist_same(*final(fs), *old(fs)),
         forall|p: Seq<char>| old(fs).blobs.contains_key(p) ==> #[trigger] final(fs).blobs.contains_key(p) && final(fs).blobs[p] == old(fs).blobs[p],"""
     f = s.item("fn", "put", impl="Store")
     f.replace("blob: Option<&[u8]>)", "blob: Option<&[u8]>, %s)" % FS, rule="G1 ghost disk parameter")
@@ -317,7 +320,7 @@ def build(ctx, res):
     f = s.item("fn", "save", impl="Store")
     f.replace("pub fn save(&mut self)", "pub fn save(&mut self, %s)" % FS, rule="G1 ghost disk parameter")
     f.replace("self.next_files == self.manifest.files", "vp_files_eq(&self.next_files, &self.manifest.files)", rule="O13")
-    f.replace("toml::to_string(&self.manifest)", "vp_toml_to_string(&self.manifest)", rule="O14")
+    f.replace("toml::to_string(&self.manifest)", "vp_toml_to_string(&self.manifest, Tracked(fs))", rule="O14")
     f.sub(r"log::debug!\([^;]*\);", "", count=2, rule="E6 log::debug! statements dropped")
     f.replace("veryl_path::atomic_write(self.root.join(MANIFEST), manifest.as_bytes())", "vp_atomic_write_manifest(&self.root, &manifest, Tracked(fs))", rule="O14")
     f.replace("self.gc();", "self.gc(Tracked(fs));", rule="G1")
